@@ -50,4 +50,17 @@ def h1upgrade (args : List String) : String :=
     | _, _ => "bad-args"
   | _ => "bad-args"
 
+/-- `h1leading <flags> <segments>`: run httpcore's head loop; leading data handed to the upgrade stream -/
+def h1leading (args : List String) : String :=
+  match args with
+  | [flags, segs] =>
+    match parseBytesList segs with
+    | some ss =>
+      let ri := parseReqInfo flags
+      let r := feedUntilSwitched ri ([], .head, []) ss
+      let o := observe r.1.1
+      s!"head={showHead o.head} state={showSt r.1.2.1} leading={hexOfBytes r.1.2.2} unread={r.2.length} outcome={showOutcome o.outcome}"
+    | none => "bad-args"
+  | _ => "bad-args"
+
 end Httpcore.Drv
